@@ -120,7 +120,7 @@ class SmiV2Lexer(AbstractLexer):
 
     # Skipping MACRO
     def t_MACRO(self, t):
-        r'MACRO'
+        r'MACRO(?![-a-zA-z0-9])'
         t.lexer.begin('macro')
         return t
 
@@ -139,7 +139,7 @@ class SmiV2Lexer(AbstractLexer):
 
     # Skipping EXPORTS
     def t_EXPORTS(self, t):
-        r'EXPORTS'
+        r'EXPORTS(?![-a-zA-z0-9])'
         t.lexer.begin('exports')
         return t
 
@@ -157,7 +157,7 @@ class SmiV2Lexer(AbstractLexer):
 
     # Skipping CHOICE
     def t_CHOICE(self, t):
-        r'CHOICE'
+        r'CHOICE(?![-a-zA-z0-9])'
         t.lexer.begin('choice')
         return t
 
